@@ -330,6 +330,39 @@ theorem respawn_after_retirement {limit nd : Nat} {s : State} (h : Reach limit n
     rw [this, hlive0]
     rfl
 
+/-- **a refused submission is retried by the submitter itself**: in every state in which `dispatch` has handed
+the closure back, the submitting thread's next turn of the loop (`retry`) is enabled — it depends on no
+driver event, no wake-up and no other thread (the drivers spin in `push_blocking`; they do not park the job
+until the next poll). -/
+theorem refused_submission_retried_by_submitter {s : State} {d j : Nat} (hd : d < s.nd) (hr : s.disp d = .refused j) :
+    ∃ s', step? s (.retry d) = some s' ∧ s'.disp d = .trying j := by
+  apply Exists.intro
+  refine ⟨?_, ?_⟩
+  · simp [step?, doRetry, hd, hr]
+    rfl
+  · simp
+
+theorem takeOwned_of_mem : ∀ (l : List Done) (e : Done), e ∈ l → ∃ x rest, takeOwned e.owner l = some (x, rest)
+  | [], e, h => by cases h
+  | a :: l, e, h => by
+    unfold takeOwned
+    by_cases ho : a.owner = e.owner
+    · exact ⟨a, l, by rw [if_pos ho]⟩
+    · rw [if_neg ho]
+      rcases List.mem_cons.mp h with rfl | h
+      · exact absurd rfl ho
+      · obtain ⟨x, r, hx⟩ := takeOwned_of_mem l e h
+        exact ⟨x, a :: r, by rw [hx]⟩
+
+/-- **completed results are drained on every poll**: whenever a result sits in a completion queue its owner's
+`reap` is enabled, whatever else is going on (other file descriptors ready, other jobs running, the pool
+saturated); the entry it takes is the oldest one of that owner. -/
+theorem completed_result_always_reapable {s : State} {e : Done} (he : e ∈ s.completed) :
+    ∃ s', step? s (.reap e.owner) = some s' ∧ s'.delivered.length = s.delivered.length + 1 := by
+  obtain ⟨x, rest, hx⟩ := takeOwned_of_mem s.completed e he
+  refine ⟨{ s with completed := rest, delivered := x :: s.delivered }, ?_, rfl⟩
+  simp [step?, doReap, hx]
+
 /-- **no stranding without timers and crashes**: on a schedule without idle timeouts and without jobs that
 panic uncaught, every dispatcher between `thread::spawn` and the end of its rendezvous `send` is matched
 by a distinct worker that will enter `recv` again; in particular, whenever a sender is blocked some
